@@ -28,10 +28,13 @@ func init() {
 
 type c16Scenario struct {
 	Entry    string    `json:"entry"`   // GetBlob, GetBlobRange, GetManifest, ResolveBlob, ResolveManifest
-	Scripts  [2]string `json:"members"` // S, F, BS, BF, Fc, Fd
+	Scripts  [2]string `json:"members"` // S, F, BS, BF, Fc, Fd, HS
 	Cancel   bool      `json:"canceller"`
 	CloseErr bool      `json:"close_error"`
-	Schedule []int32   `json:"schedule,omitempty"`
+	// SlowBody: the members' readers have no data at hand: Read blocks until the reader is closed or
+	// its member context is cancelled (a network body). The caller does not read in these scenarios.
+	SlowBody bool    `json:"slow_body,omitempty"`
+	Schedule []int32 `json:"schedule,omitempty"`
 }
 
 type c16Reader struct {
@@ -40,11 +43,30 @@ type c16Reader struct {
 	closeErr error
 	reads    int
 	st       *c16State
+	slow     bool
+	ctx      context.Context
+	closedCh chan struct{}
+}
+
+// c16ReaderWT is a member reader that also offers io.WriterTo (member 0's readers do; member 1's do not).
+type c16ReaderWT struct{ *c16Reader }
+
+func (r c16ReaderWT) WriteTo(w io.Writer) (int64, error) {
+	return io.Copy(w, struct{ io.Reader }{r.c16Reader})
 }
 
 // Read delivers one byte, then ends the stream: cleanly, or with an error when the scenario's
 // member readers fail on Close as well (CloseErr scenarios double as "faulty reader" scenarios).
 func (r *c16Reader) Read(p []byte) (int, error) {
+	if r.slow {
+		// nothing to deliver until somebody gives up on this body
+		switch i, _, _ := vsync.Select(vsync.RecvCase(r.closedCh), vsync.RecvCase(r.ctx.Done())); i {
+		case 0:
+			return 0, errors.New("read on closed body")
+		default:
+			return 0, r.ctx.Err()
+		}
+	}
 	r.reads++
 	if r.reads == 1 && len(p) > 0 {
 		p[0] = 'x'
@@ -56,6 +78,9 @@ func (r *c16Reader) Read(p []byte) (int, error) {
 	return 0, io.EOF
 }
 func (r *c16Reader) Close() error {
+	if r.closed == 0 && r.closedCh != nil {
+		vsync.Close(r.closedCh)
+	}
 	r.closed++
 	r.st.log(fmt.Sprintf("reader%d.Close", r.member))
 	return r.closeErr
@@ -101,6 +126,19 @@ func (st *c16State) member(ctx context.Context, i int) (ok bool) {
 	}
 	ok = strings.HasSuffix(script, "S")
 	st.failErr[i] = errC16Member
+	if script == "HS" {
+		// a member that honours cancellation (as an HTTP client does): it takes a moment, then answers
+		// successfully unless its context has been cancelled meanwhile
+		vsync.Yield()
+		if ctx.Err() != nil {
+			ok = false
+			st.failErr[i] = ctx.Err()
+			other := 1 - i
+			if !st.callerCancelled && !(st.returned[other] && st.succeeded[other]) {
+				st.problem("member-cancelled-before-any-answer-was-chosen", fmt.Sprintf("member %d, which would have succeeded, found its context cancelled although the caller had not cancelled and member %d had not answered successfully", i, other))
+			}
+		}
+	}
 	switch script {
 	case "Fc":
 		st.failErr[i] = context.Canceled // the member failed for reasons of its own (e.g. an upstream fetch it aborted)
@@ -118,11 +156,17 @@ func (st *c16State) funcs(i int) *ociregistry.Funcs {
 		if !st.member(ctx, i) {
 			return nil, fmt.Errorf("member %d: %w", i, st.failErr[i])
 		}
-		r := &c16Reader{member: i, st: st}
+		r := &c16Reader{member: i, st: st, slow: st.sc.SlowBody, ctx: ctx}
+		if st.sc.SlowBody {
+			r.closedCh = vsync.Make(make(chan struct{}))
+		}
 		if st.sc.CloseErr {
 			r.closeErr = errors.New("close failed")
 		}
 		st.readers[i] = r
+		if i == 0 {
+			return c16ReaderWT{r}, nil
+		}
 		return r, nil
 	}
 	ds := func(ctx context.Context) (ociregistry.Descriptor, error) {
@@ -210,7 +254,7 @@ func (st *c16State) body(s *vsched.Sched) {
 			}
 			// ... and reads it to its end (or to its error): the reader is still open afterwards
 			buf := make([]byte, 8)
-			for i := 0; i < 4; i++ {
+			for i := 0; i < 4 && !sc.SlowBody; i++ {
 				if _, rerr := rd.Read(buf); rerr != nil {
 					break
 				}
@@ -279,14 +323,16 @@ func (st *c16State) verdict(res vsched.Result) []string {
 
 func c16Scenarios(thorough bool) []c16Scenario {
 	var out []c16Scenario
-	scripts := []string{"S", "F", "BS", "BF", "Fc", "Fd"}
-	own := func(s string) bool { return s == "Fc" || s == "Fd" }
+	scripts := []string{"S", "F", "BS", "BF", "Fc", "Fd", "HS"}
+	own := func(s string) bool { return s == "Fc" || s == "Fd" || s == "HS" }
 	for _, e := range []string{"GetBlob", "GetBlobRange", "GetManifest", "ResolveBlob", "ResolveManifest"} {
 		for _, a := range scripts {
 			for _, b := range scripts {
 				// failures carrying the member's own context error: paired with S, F and BS only
 				if own(a) && (own(b) || b == "BF") || own(b) && (own(a) || a == "BF") {
-					continue
+					if !(a == "HS" && b == "HS") && !(a == "HS" && b == "Fc") && !(a == "Fc" && b == "HS") {
+						continue
+					}
 				}
 				for _, c := range []bool{false, true} {
 					sc := c16Scenario{Entry: e, Scripts: [2]string{a, b}, Cancel: c}
@@ -299,6 +345,11 @@ func c16Scenarios(thorough bool) []c16Scenario {
 					if strings.HasPrefix(e, "Get") {
 						sc.CloseErr = true
 						out = append(out, sc)
+						if strings.HasSuffix(a, "S") && strings.HasSuffix(b, "S") {
+							// both members deliver a reader: bodies with nothing at hand yet
+							sc.CloseErr, sc.SlowBody = false, true
+							out = append(out, sc)
+						}
 					}
 				}
 			}
@@ -405,7 +456,7 @@ func c16Check(r *vcore.Run) vcore.Coverage {
 		"ociunify is instrumented at build time by the vrewrite overlay; /repo is not modified",
 	}
 	return vcore.Coverage{States: execs, Transitions: points, TracesImpl: execs, Evaluations: execs, Nontrivial: preempted, Exhaustive: complete,
-		Rule: fmt.Sprintf("non-trivial = complete schedules containing at least one preemption (a thread switched out while still enabled), measured; %d scenarios (5 entry points x 28 member script pairs x canceller on/off x reader Close error on/off) x ALL schedules of caller, two sender goroutines and canceller (stateless DFS, no preemption bound); states = complete schedules executed, transitions = scheduling points executed", len(scs))}
+		Rule: fmt.Sprintf("non-trivial = complete schedules containing at least one preemption (a thread switched out while still enabled), measured; %d scenarios (5 entry points x 37 member script pairs x canceller on/off x reader Close error on/off) x ALL schedules of caller, two sender goroutines and canceller (stateless DFS, no preemption bound); states = complete schedules executed, transitions = scheduling points executed", len(scs))}
 }
 
 func c16Replay(r *vcore.Run, sub string, raw json.RawMessage) {
